@@ -10,6 +10,7 @@ import (
 	"path/filepath"
 	"strconv"
 	"strings"
+	"sync"
 
 	"github.com/Dash-Industry-Forum/livesim2/pkg/chunkparser"
 	"github.com/Eyevinn/dash-mpd/mpd"
@@ -25,6 +26,7 @@ type Receiver struct {
 	storage    string
 	streams    map[string]stream // mapped by stream.id()
 	channelMgr *ChannelMgr
+	mu         sync.Mutex // protects streams
 }
 
 func NewReceiver(ctx context.Context, opts *Options, cfg *Config) (*Receiver, error) {
@@ -83,11 +85,13 @@ func (r *Receiver) SegmentHandlerFunc(w http.ResponseWriter, req *http.Request) 
 		discardUpload(w, req, http.StatusOK)
 		return
 	}
+	r.mu.Lock()
 	if _, ok := r.streams[stream.id()]; !ok {
 		log.Info("New stream", "urlPath", path, "streamId", stream.id(), "mediaType", stream.mediaType)
 		r.streams[stream.id()] = stream
 		err := os.MkdirAll(stream.trDir, 0755)
 		if err != nil {
+			r.mu.Unlock()
 			log.Error("Failed to create directory", "err", err)
 			http.Error(w, "Failed to create directory", http.StatusInternalServerError)
 			return
@@ -97,6 +101,7 @@ func (r *Receiver) SegmentHandlerFunc(w http.ResponseWriter, req *http.Request) 
 			log.Error("Failed to find and process original init segment", "err", err)
 		}
 	}
+	r.mu.Unlock()
 	defer func() {
 		log.Debug("Closing body", "url", path)
 		err := req.Body.Close()
